@@ -36,7 +36,9 @@ HOST_GLOBALS = {'G': 5, 'GFLAG': True, 'GOFF': False, 'GLIST': [1, 2, 3], 'boom'
                 'helper': helper, '__name__': 'c10_host'}
 
 BOOL_CONDS = ['y', 't', 'not y', 'y and t', 'G > 50', 'G == x', 'x > 3', 'flag', 'not flag', 'x % 2 == 0', 'flag and x > 1', 'G > x', 'GFLAG', 'GOFF', 'True', 'False',
-              'isinstance(x, int)', "'a' in s", 'x in GLIST', 'helper(x) > 4', 'len(s) > 2', 'x == G']
+              'isinstance(x, int)', "'a' in s", 'x in GLIST', 'helper(x) > 4', 'len(s) > 2', 'x == G',
+              # text literals in which white space matters
+              "s == 'a  b'", "'  ' in s", "'\t' in s", "s == 'a b'"]
 BLANK_CONDS = ['', '  ']
 FAIL_CONDS = ['yes', 'true', 'Y', '1/0', 'undefined_name', 'd[1]', "boom('true')", "boom('yes')", "boom('1')", "boom('t')", 'boom_base()',
               'x.nope', 'x >', ')(', "d['y']", "boom('false')", 'int(s)']
@@ -46,7 +48,7 @@ WATCHES = ['x', 'G', 'y', 'helper', 'G + 1', 'GLIST', 'helper(x)', 'len(s)', 'x 
            # the two namespaces themselves: what is local and what is global at that line
            'sorted(locals())', 'len(locals())', "globals()['G']", "'G' in locals()", "'x' in globals()", 'sorted(dir())',
            # expression text as a user types it: blanks around it are not part of the expression
-           ' x', '\tx + G', 'G ', '  helper(x)  '] + AGENT_ONLY
+           ' x', '\tx + G', 'G ', '  helper(x)  ', "s.split('  ')", "'a  b' + s", "len('\t')"] + AGENT_ONLY
 
 
 def host_eval(expr, frame):
@@ -89,7 +91,7 @@ class C10(Prop):
         cond = st.one_of(cond, cond, cond, cond, cond, padded)
         hit = fd({'x': st.integers(0, 8), 'flag': st.booleans(), 'y': st.booleans(),
                                      't': st.booleans(), 'shadow': st.sampled_from([None, None, 99, 3]),
-                                     's': st.sampled_from(['', 'abc', 'zzzz', '12']),
+                                     's': st.sampled_from(['', 'abc', 'zzzz', '12', 'a  b', 'a b', 'x\ty']),
                                      'd': st.sampled_from([0, 1]), 'gap_ms': st.sampled_from([0, 1, 10, 1000])})
         return fd({
             'cond': cond,
